@@ -52,7 +52,8 @@ def run_pair(ctx, exe, drv, mode, env_extra, verbose=False):
         os.remove(fifo)
     os.mkfifo(fifo)
     env = vlib.goenv()
-    env.update({"VERIF_OUT": fifo, "VERIF_SEED": str(ctx.seed), "VERIF_TIER": ctx.tier, "VERIF_MODE": mode})
+    env.update({"VERIF_OUT": fifo, "VERIF_SEED": str(ctx.seed), "VERIF_TIER": ctx.tier, "VERIF_MODE": mode,
+                "VERIF_CASES_V": os.path.join(ctx.scratch, "Cases_%s.v" % mode)})
     env.update(env_extra)
     dp = subprocess.Popen([drv, fifo] + (["-v"] if verbose else []), stdout=subprocess.PIPE, stderr=subprocess.STDOUT)
     hp = subprocess.Popen([exe], env=env, stdout=subprocess.PIPE, stderr=subprocess.STDOUT, cwd=ctx.scratch)
@@ -66,10 +67,23 @@ def run_pair(ctx, exe, drv, mode, env_extra, verbose=False):
     return hp.returncode, hout.decode("utf-8", "replace"), dp.returncode, dout.decode("utf-8", "replace"), fifo + ".summary"
 
 
+def vm_cross_check(ctx, mode):
+    """DESIGN 3.3: the sample of this run's histories that the harness wrote as a Coq term (operations, observed
+    results, observed snapshots) is evaluated inside Coq: Acme.C01.Observe.mismatches with vm_compute.
+    Returns (ok, histories, steps, log)."""
+    src = os.path.join(ctx.scratch, "Cases_%s.v" % mode)
+    if not os.path.exists(src):
+        return False, 0, 0, "the harness wrote no Cases_%s.v" % mode
+    n = sum(1 for l in open(src) if l.startswith("Definition c") and not l.startswith("Definition cases"))
+    rc, out = vlib.sh(["coqc", "-R", vlib.COQ, "Acme", os.path.basename(src)], cwd=ctx.scratch, timeout=1500)
+    m = re.search(r"M\s*=\s*\(\s*\[\s*\]\s*,\s*(\d+)\s*\)", out)
+    return (rc == 0 and m is not None), n, (int(m.group(1)) if m else 0), out[-1500:]
+
+
 def run_mode(ctx, mode):
     pid = ctx.pid
     ctx.level = "proof"
-    status = vlib.proof_status(pid, extra_targets=["C01/Extract.v"])
+    status = vlib.proof_status(pid, extra_targets=["C01/Extract.v", "C01/Observe.v"])
     ctx.proof_gate(status)
     drv = vlib.build_ocaml_driver("c01_driver", os.path.join(vlib.COQ, "extracted"),
                                   os.path.join(HERE, "driver", "c01_driver.ml"), only=["c01_model"])
@@ -168,6 +182,17 @@ def run_mode(ctx, mode):
         "Go map iteration over SignalEnum.refs is observable only when two signals of one layout reference the "
         "enum and grow (finding D36): such steps end the history and only acceptance is compared",
     ]
+    if not ctx.replay:
+        okx, nx, sx, xlog = vm_cross_check(ctx, mode)
+        ctx.coverage["vm_compute_cross_check"] = {
+            "histories": nx, "steps": sx, "ok": okx,
+            "what": "sample of this run's histories (all corpus entries, every n-th random / grow-gaps / exhaustive one; more in "
+                    "the thorough tier) with the results and snapshots observed on the Go objects after every operation, "
+                    "evaluated by vm_compute inside Coq (Acme.C01.Observe.mismatches = []): no extraction, OCaml or driver"}
+        if not okx:
+            ctx.violation("%s-vm-cross-check" % pid.lower(), "the in-Coq evaluation of %d sampled histories disagrees with the results / "
+                          "snapshots observed on the implementation (or did not run): %s" % (nx, xlog[-700:]), {"log": xlog},
+                          found_input=False)
     if ctx.tier == "thorough":
         ok, chk = vlib.coqchk(pid)
         ctx.coverage["coqchk"] = "ok" if ok else "FAILED"
